@@ -363,7 +363,7 @@ def jobs(tier):
         J.append(dict(harness=('c16', 'u_reachable'), params=dict(N=3, which='random_clifford', tables=sel, K=8 if tier == 'thorough' else 1), timeout_s=600, cost=80,
                       label='u_reachable[N=3, diag(1,S) tables %d.., K=%d]' % (k, 8 if tier == 'thorough' else 1)))
     if tier == 'thorough':
-        J.append(dict(harness=('c16', 'u_pigeonhole'), params=dict(N=3, which='random_clifford'), timeout_s=3000, cost=500, claimed=False,
+        J.append(dict(harness=('c16', 'u_pigeonhole'), params=dict(N=3, which='random_clifford'), timeout_s=1800, wall_s=2400, cost=500, claimed=False,
                       label='stretch:u_pigeonhole{"N": 3}'))
         J.append(dict(harness=('c16', 'u_pigeonhole'), params=dict(N=3, which='random_pauli'), timeout_s=1200, cost=100))
     return J
